@@ -155,10 +155,90 @@ def c08_relink_per_instance_false():
     return '; '.join(problems) or None
 
 
+def c12_subclass_copy_shares_containers():
+    """ba52d53: `B.s = v` copied the inherited Parameter shallowly: B's and A's Selector shared one objects list"""
+    class A(param.Parameterized):
+        s = param.Selector(objects=[1, 2, 3])
+    class B(A):
+        pass
+    B.s = 2
+    B.param.s.objects.append(99)
+    return None if A.param.s.objects == [1, 2, 3] else f"B.param.s.objects.append(99) after B.s = 2: A.param.s.objects == {list(A.param.s.objects)}"
+
+
+def c17_multi_name_watcher_after_copy():
+    """df4891c: __setstate__ rebuilt a watcher of several parameters once per parameter list"""
+    import copy, pickle
+    calls = []
+    class F(param.Parameterized):
+        a = param.Integer(0)
+        b = param.Integer(0)
+        @param.depends('a', 'b', watch=True)
+        def m(self):
+            calls.append(self)
+    globals().update(F=F)                                # pickle finds the class by module attribute
+    F.__qualname__ = 'F'
+    f = F()
+    bad = []
+    for name, c in (('deepcopy', copy.deepcopy(f)), ('pickle', pickle.loads(pickle.dumps(f)))):
+        del calls[:]
+        c.param.update(a=c.a + 1, b=c.b + 1)
+        if len(calls) != 1:
+            bad.append(f'{name}: {len(calls)} calls')
+    return None if not bad else "one batched update(a=.., b=..) on the copy ran the depends('a','b') method: " + ', '.join(bad)
+
+
+def c17_depth2_dependency_copy():
+    """a036968: the parent-notification callback of depends('mid.leaf.x') was a local closure: not picklable, and bound to the original after deepcopy"""
+    import copy, pickle
+    log = []
+    class Leaf(param.Parameterized):
+        x = param.Integer(0)
+    class Mid(param.Parameterized):
+        leaf = param.ClassSelector(class_=Leaf)
+    class Top(param.Parameterized):
+        mid = param.ClassSelector(class_=Mid)
+        @param.depends('mid.leaf.x', watch=True)
+        def m(self):
+            log.append(self)
+    globals().update(Leaf=Leaf, Mid=Mid, Top=Top)      # pickle finds classes by module attribute
+    for K in (Leaf, Mid, Top):
+        K.__qualname__ = K.__name__
+    t = Top(mid=Mid(leaf=Leaf()))
+    try:
+        p = pickle.loads(pickle.dumps(t))
+    except Exception as e:
+        return f'pickle.dumps raises {type(e).__name__}: {str(e)[:80]}'
+    for name, c in (('deepcopy', copy.deepcopy(t)), ('pickle', p)):
+        c.mid.leaf = Leaf(x=5)
+        del log[:]
+        c.mid.leaf.x = 7
+        if [o is c for o in log] != [True]:
+            return f"{name}: after replacing c.mid.leaf, c.mid.leaf.x = 7 called m on {['copy' if o is c else 'original' if o is t else '?' for o in log]}"
+    return None
+
+
+def c12_instance_copy_of_blanking_parameter():
+    """8d56a4b: the per-instance copy of a Parameter was made by copy.copy, i.e. through __getstate__, which Path blanks"""
+    import os, tempfile
+    d = tempfile.mkdtemp()
+    open(os.path.join(d, 'f.txt'), 'w').close()
+    class H(param.Parameterized):
+        p = param.Path(default=None, search_paths=[d], check_exists=True)
+    h = H()
+    try:
+        h.p = 'f.txt'
+    except OSError as e:
+        return f"H(p='f.txt') resolves but h.p = 'f.txt' raises: the instance Parameter's search_paths == {h.param.p.search_paths}"
+    return None if h.param.p.search_paths == [d] else f'instance search_paths == {h.param.p.search_paths}'
+
+
 if __name__ == '__main__':
     for f in [c03_slot_watcher_list_mutated, c03_slot_watcher_registered_in_callback, c16_selector_schema_unnamed_object,
               c18_remove_equal_not_identical, c18_extend_iterator, c18_update_mapping, c18_pop_default,
-              c05_class_trigger_inherited_event, c02_rejected_class_assignment_copy, c08_relink_per_instance_false]:
+              c05_class_trigger_inherited_event, c02_rejected_class_assignment_copy, c08_relink_per_instance_false,
+              c12_subclass_copy_shares_containers, c17_multi_name_watcher_after_copy, c17_depth2_dependency_copy,
+              c12_instance_copy_of_blanking_parameter]:
         try: r = f()
         except Exception as e: r = f'demo crashed: {type(e).__name__}: {e}'
         print(f'{f.__name__:44s}', 'DEFECT: ' + r if r else 'ok')
